@@ -128,6 +128,49 @@ def hx(b):
     return b.hex() if b else '-'
 
 
+class Flag:
+    """an option value that is only a truth value: `bool(x)` says what it means, `==` claims equality with everything
+    (True, False, None, 0 ...), `is` matches nothing"""
+
+    def __init__(self, v):
+        self.v = bool(v)
+
+    def __bool__(self):
+        return self.v
+
+    def __eq__(self, other):
+        return True
+
+    def __ne__(self, other):
+        return True
+
+    def __hash__(self):
+        return 0
+
+    def __repr__(self):
+        return 'Flag(%r)' % self.v
+
+
+# argument / call forms of a save (round 5) - none of them changes what the save must do:
+#   kwform 1: all four flags passed explicitly as ints 0/1 (also those equal to the default); 2: as Flag objects
+#   api 1:    the AtomicSaver class called directly instead of atomic_save()
+#   proto 1:  no `with`: saver.setup(), the block on saver.part_file, saver.__exit__(exc_type, exc, tb) by hand (documented)
+#   pathform 1: the destination as a pathlib.Path; 2: with redundant components (dir/./x, dir//x); 3: dir/sub/../x
+FORM_KEYS = ('kwform', 'api', 'proto', 'pathform')
+
+
+def dest_arg(dest, pathform):
+    d, n = os.path.split(dest)
+    if pathform == 1:
+        import pathlib
+        return pathlib.Path(dest)
+    if pathform == 2:
+        return d + '/.//' + n
+    if pathform == 3:
+        return d + '/no-such-dir/../' + n
+    return dest
+
+
 _SCRATCH = []
 
 
@@ -682,10 +725,31 @@ class C05(Property):
                 for c in self.with_plans(mk(ow=ow, dm=dm, perms=perms, rm=rm, raises=raises, cloexec=1), appear=False,
                                          codes=(1001, 1002), pairs=(ow == 1 and rm == 1 and not raises)):
                     yield c
-        # 8. a write larger than any buffer
+        # 12. (round 5) the other ways of saying the same save: flags as ints / as objects that only have a truth value (and an
+        #     `==` that agrees with everything), the AtomicSaver class called directly, setup() / part_file / __exit__() by hand
+        #     instead of `with`, the destination as a pathlib.Path / with redundant path components - x every single fault
+        forms = [dict(kwform=1), dict(kwform=2), dict(api=1), dict(proto=1), dict(pathform=1), dict(pathform=2), dict(pathform=3),
+                 dict(kwform=2, api=1, proto=1, pathform=1), dict(kwform=1, proto=1, reuse=1), dict(kwform=2, reuse=2, pathform=2)]
+        cfgs = [mk(ow=1, dm=0o644), mk(ow=0, dm=None), mk(ow=0, dm=0o600), mk(owp=1, pm=0o640, dm=0o600), mk(owp=0, pm=0o640),
+                mk(rm=0, raises=1), mk(txt=1, perms=0o640), mk(ow=0, owp=1, rm=0, txt=1, raises=2)]
+        for fi, fm in enumerate(forms):
+            for ci, cfg in enumerate(cfgs):
+                if full or fi < 4 or (fi + ci) % 2 == 0:
+                    for c in self.with_plans(dict(cfg, **fm), appear=(cfg['ow'] == 0 and cfg['dest'] is None)):
+                        yield c
+        # 13. (round 5) identity coincidences: a part_file that IS the destination (as such, via ./, via sub/../): refused or
+        #     worked around, but the destination is never created empty / written in place / unlinked by overwrite_part
+        for pf in (DEST, './' + DEST, 'sub/../' + DEST, '../@DIR@/' + DEST):
+            for ow, owp, dm, raises in itertools.product((1, 0), (0, 1), (None, 0o644), (0, 1)):
+                yield mk(ow=ow, owp=owp, dm=dm, raises=raises, pf=pf, plan=[])
+        # 8. a write larger than any buffer; writes at the buffer size and one byte off it, a buffering argument equal to the data
         big = (bytes(range(48, 112)) * 400).hex()
         for c in self.with_plans(mk(dm=0o644, writes=('4e45', big)), appear=False):
             yield c
+        for n, buf in ((8191, None), (8192, None), (8193, None), (16384, None), (8192, 8192), (255, 256), (256, 256), (257, 256)):
+            extra = {} if buf is None else {'buf': buf}
+            for c in self.with_plans(mk(dm=0o600, writes=((b'%d|' % n + b'z' * n)[:n].hex(), '21'), **extra), appear=False):
+                yield c
 
     ENV_MOVES = [['c', 0o600], ['c', 0o664], ['d'], ['p', 0o640, b'OTHER-WRITER'.hex()], ['u', 0o027], ['c', 0o755],
                  ['p', 0o444, '-'], ['u', 0]]
@@ -881,7 +945,14 @@ class C05(Property):
             return False    # process-level cwd is not part of the model
         if case['txt'] and case.get('buf') == 0:
             return False    # Python itself refuses unbuffered text I/O (os.fdopen raises ValueError): oracle only
+        if self.pf_is_dest(case):
+            return False    # the part-file name IS the destination: one name, not two (oracle only)
         return True
+
+    @staticmethod
+    def pf_is_dest(case):
+        pf = case.get('pf')
+        return bool(pf) and os.path.normpath(os.path.join('/d', pf.replace('@DIR@', 'd'))) == os.path.normpath(os.path.join('/d', DEST))
 
     @staticmethod
     def _head(case):
@@ -985,7 +1056,7 @@ class C05(Property):
         obs = {}
         try:
             dest = os.path.join(d, DEST)
-            part = os.path.join(d, case.get('pf') or PART)
+            part = os.path.normpath(os.path.join(d, (case.get('pf') or PART).replace('@DIR@', os.path.basename(d))))
             for path, spec in ((dest, case['dest']), (part, case['part'])):
                 if spec is not None:
                     with open(path, 'wb') as f:
@@ -994,16 +1065,17 @@ class C05(Property):
                     if stat.S_IMODE(os.lstat(path).st_mode) != spec[0]:
                         obs['env'] = 'the scratch file system does not keep mode %o' % spec[0]
             os.umask(case['umask'])
-            kw = self.kwargs_of(case, case)
+            kw = self.kwargs_of(case, case, d)
             plan = {k: a for k, a in case['plan']}
             ops = ops_of(case)
             if case.get('hist') is not None:
                 self.run_history(fu, d, dest, part, case, obs)
                 return obs
             holder = {} if case.get('reuse') else None
+            forms = {k: case[k] for k in FORM_KEYS if case.get(k)}
             if case.get('reuse') == 2 and case['rm'] and case['part'] is None and not d2:
                 # the instance has been used before: a save whose block raises at once (it must leave everything as it was)
-                w = self.one_save(fu, d, dest, kw, [], 1, {}, case['txt'], holder=holder)
+                w = self.one_save(fu, d, dest, kw, [], 1, {}, case['txt'], holder=holder, forms=forms)
                 obs['warm'] = {k: w[k] for k in ('out', 'dest', 'part', 'extra')}
             if d2:
                 os.chdir(d)
@@ -1011,9 +1083,9 @@ class C05(Property):
                 os.chdir(old_cwd)
             else:
                 obs['first'] = self.one_save(fu, d, dest, kw, ops, case['raises'], plan, case['txt'], holder=holder,
-                                              cloexec=case.get('cloexec'))
+                                              cloexec=case.get('cloexec'), forms=forms)
             obs['retry'] = self.one_save(fu, d, dest, kw, ['w' + op[1:] for op in ops if op[0] == 'w'], 0, {}, case['txt'],
-                                         holder=holder, cloexec=case.get('cloexec'))
+                                         holder=holder, cloexec=case.get('cloexec'), forms=forms)
         except CaseTimeout:
             obs['timeout'] = True
             obs.setdefault('first', {'out': 'exc:CaseTimeout', 'calls': 0, 'dest': None, 'part': None, 'extra': [], 'log': []})
@@ -1032,17 +1104,22 @@ class C05(Property):
         return obs
 
     @staticmethod
-    def kwargs_of(cfg, case):
+    def kwargs_of(cfg, case, d=None):
         """keyword arguments of atomic_save for the configuration `cfg`; documented defaults are exercised by omitting the keyword"""
         kw = {}
+        kwform = case.get('kwform') or 0
         for name, val, default in (('overwrite', cfg['ow'], 1), ('overwrite_part', cfg['owp'], 0),
                                    ('rm_part_on_exc', cfg['rm'], 1), ('text_mode', cfg['txt'], 0)):
-            if val != default:
+            if kwform:
+                kw[name] = int(bool(val)) if kwform == 1 else Flag(val)
+            elif val != default:
                 kw[name] = bool(val)
         if cfg['perms'] is not None:
             kw['file_perms'] = cfg['perms']
         if case.get('pf'):
             kw['part_file'] = case['pf']       # custom part file name (always in the destination's directory)
+            if d and '@DIR@' in kw['part_file']:
+                kw['part_file'] = kw['part_file'].replace('@DIR@', os.path.basename(d))
         if case.get('buf') is not None:
             kw['buffering'] = case['buf']
         return kw
@@ -1060,8 +1137,9 @@ class C05(Property):
         def save(who, ops, raises, plan):
             cfg = saver_cfg(case, who)
             start = {'dest': look(dest), 'part': look(part), 'umask': um}
-            o = self.one_save(fu, d, dest, self.kwargs_of(cfg, case), ops, raises, {k: a for k, a in plan}, cfg['txt'],
-                              holder=holders.get(who), cloexec=case.get('cloexec'))
+            o = self.one_save(fu, d, dest, self.kwargs_of(cfg, case, d), ops, raises, {k: a for k, a in plan}, cfg['txt'],
+                              holder=holders.get(who), cloexec=case.get('cloexec'),
+                              forms={k: case[k] for k in FORM_KEYS if case.get(k)})
             o['start'] = start
             o['cfg'] = cfg
             o['who'] = who
@@ -1100,7 +1178,8 @@ class C05(Property):
                     os.unlink(part)
             steps.append({'env': kind, 'dest': look(dest), 'part': look(part)})
 
-    def one_save(self, fu, d, dest, kw, ops, raises, plan, txt, rel=None, chdir_to=None, holder=None, cloexec=False):
+    def one_save(self, fu, d, dest, kw, ops, raises, plan, txt, rel=None, chdir_to=None, holder=None, cloexec=False, forms=None):
+        forms = forms or {}
         partname = kw.get('part_file') or PART
         spy = Spy5(dest, plan=plan)
         spy.cloexec = bool(cloexec)
@@ -1116,10 +1195,13 @@ class C05(Property):
                     if holder is not None and 'saver' in holder:
                         saver = holder['saver']          # the same AtomicSaver instance, used a second time
                     else:
-                        saver = fu.atomic_save(rel or dest, **kw)
+                        make = fu.AtomicSaver if forms.get('api') else fu.atomic_save
+                        saver = make(rel or dest_arg(dest, forms.get('pathform')), **kw)
                         if holder is not None:
                             holder['saver'] = saver
-                    with saver as f:
+
+                    def block(f):
+                        nonlocal closed_by_body
                         for op in ops:
                             if op[0] == 'w':
                                 b = bytes.fromhex(op[1:])
@@ -1133,6 +1215,19 @@ class C05(Property):
                             os.chdir(chdir_to)
                         if body_exc is not None:
                             raise body_exc
+                    if forms.get('proto'):
+                        # the documented use without `with`: setup(), write to part_file, __exit__ by hand
+                        saver.setup()
+                        try:
+                            block(saver.part_file)
+                        except BaseException as be:
+                            if not saver.__exit__(type(be), be, be.__traceback__):
+                                raise
+                        else:
+                            saver.__exit__(None, None, None)
+                    else:
+                        with saver as f:
+                            block(f)
                 finally:
                     spy.uninstall()
         except CaseTimeout:
@@ -1244,6 +1339,9 @@ class C05(Property):
                 return Failure('dest-changed', 'destination was %r, is %r after a save whose block raised' % (case['dest'], w['dest']))
             if w['part'] is not None:
                 return Failure('part-left', 'part file left behind after a save whose block raised (rm_part_on_exc on)')
+        if self.pf_is_dest(case):
+            self._nt = True
+            return self.judge_alias(case, obs)
         f = self.judge_save(case, o)
         self._nt = not o['pub']
         if f is not None:
@@ -1251,6 +1349,27 @@ class C05(Property):
         if case.get('hist') is not None:
             return self.judge_history(case, obs)
         return self.judge_retry(case, obs)
+
+    def judge_alias(self, case, obs):
+        """`part_file` names the destination itself (as it stands, or through ./ or sub/../): there is no room for a part
+        file.  Whatever the saver does about it - refuse, or pick another name and complete - the destination is never
+        left created-empty / half-written / unlinked, nothing is left lying around, and a refusal is reported"""
+        new = new_hex(case)
+        prev = case['dest']
+        for which in ('first', 'retry'):
+            o = obs[which]
+            if o['extra']:
+                return Failure('part-left', 'part_file names the destination: files left behind: %r' % (o['extra'],))
+            if o['out'] == 'ok' and not (case['raises'] and which == 'first'):
+                if o['dest'] is None or o['dest'][1] != new:
+                    return Failure('wrong-content', 'part_file names the destination: the save reported success, destination %r, expected content %r' % (o['dest'], new))
+            elif o['out'] == 'ok':
+                return Failure('silent-failure', 'part_file names the destination: the block raised but no exception reached the caller')
+            elif o['dest'] != prev:
+                return Failure('dest-changed', 'part_file names the destination: destination was %r, is %r after a %s save (%s)' % (
+                    prev, o['dest'], 'refused / failed', o['out']))
+            prev = o['dest']
+        return None
 
     def judge_history(self, case, obs):
         """every save of a history is a save of its own: the property applies to it with the state it STARTS from
@@ -1427,7 +1546,7 @@ class C05(Property):
                     for k2, v in (('plan', []), ('raises', 0), ('who', 0)):
                         if st[1].get(k2):
                             yield dict(case, hist=h[:i] + [['s', dict(st[1], **{k2: v})]] + h[i + 1:])
-        for k in ('chdir', 'pf', 'buf', 'reuse', 'cloexec', 'alt'):
+        for k in ('chdir', 'pf', 'buf', 'reuse', 'cloexec', 'alt') + FORM_KEYS:
             if case.get(k) is not None:
                 yield {kk: v for kk, v in case.items() if kk != k}
 
